@@ -273,7 +273,21 @@ class Cx:
             d = z3.simplify(zx - zy, som=True, sort_sums=True, max_steps=int(os.environ.get("NF_STEPS", "300000")))
         except z3.Z3Exception:
             return False
-        return z3.is_rational_value(d) and d.numerator_as_long() == 0
+        if z3.is_rational_value(d) and d.numerator_as_long() == 0:
+            return True
+        # the same modulo the assumed square rules (s*s = 1 - c*c of rotations, sign^2 = 1, sqrt(x)^2 = x, ...)
+        from symnum.core import ENGINE
+        from symnum import poly
+        if ENGINE.square_rules and poly.equal_modulo(zx, zy, ENGINE.square_rules):
+            return True
+        return False
+
+    def unit_circle(self, c, s, note="rotation: c^2 + s^2 = 1"):
+        """assume c^2 + s^2 = 1 for two symbolic reals and register the rewrite rule s^2 -> 1 - c^2"""
+        if self.sym:
+            from symnum.core import ENGINE, lift
+            self.assume(c * c + s * s == 1, note)
+            ENGINE.square_rules[lift(s).re.decl().name()] = 1 - lift(c).re * lift(c).re
 
     def failed_so_far(self):
         """has any assertion on this path already been refuted (sym: sat; replay: violated)?  Harnesses use
